@@ -13,14 +13,16 @@
    - "deep g -> has_limit_error" is FALSE as worded for the traversals with a `seen` set (a fragment first
      reached on a short path is not walked again on a long one: no error, and none is needed).  What is
      proved instead is the reason it matters: a result other than the limit error is the result of the same
-     traversal under every larger limit (nothing was cut off), and for chains the limit error appears
-     exactly when the chain is longer than the limit (GuardsExamples.v, boundary values by computation;
-     C21_deep_chain_limit for every limit and an unbounded chain).
+     traversal under every larger limit (nothing was cut off); the verdicts `cycle` and `ok` of the three
+     cycle detectors are EXACT for every graph and limit (C21_cycle_verdict_exact: the limit can only turn a
+     verdict into `limit`, never into a wrong one); and for chains the limit error appears exactly when the
+     chain is longer than the limit (GuardsExamples.v, boundary values by computation; C21_deep_chain_limit
+     for every limit on an unbounded chain).
    - At the level of a whole document the property IS violated by the two @defer walks, whose limit error
      is discarded by their caller: C21_defer_limit_swallowed_refuted (finding, confirmed on the crate). *)
 From Coq Require Import Sorting.Sorted Sorting.Permutation.
 From ApolloVerif Require Import Base.Chars Ast.Ast Schema.Model Valid.Guards Valid.GuardsProofs
-     Valid.SortProofs Valid.GuardsExamples.
+     Valid.SortProofs Valid.GuardsExamples Valid.CycleExact Valid.DeepChain Valid.Unguarded.
 
 (* ---- guarded traversals: termination within limit + 1 activations, fuel independence, no truncation *)
 
@@ -108,6 +110,61 @@ Check C21_guard_depth_field_merging : forall limit fuel ch1 ch2 root t memo1 mem
        exists u' flag', gd_merge_operation fuel ch1 ch2 root u memo1 memo2 = GrOk (u', m1, m2, flag')).
 Print Assumptions C21_guard_depth_field_merging.
 
+(* ---- the verdicts `cycle` and `ok` are exact, for every graph, every limit and any fuel: the root is on a
+   cycle (of `T!` input fields / of fragment spreads, in spite of the `seen` set / of directive applications and
+   argument types) exactly as reported; only `limit` is inconclusive *)
+
+Theorem C21_cycle_verdict_exact :
+  (forall look limit fuel name fields,
+     match gd_input_check_with limit fuel look name fields with
+     | GrCycle _ => exists f, In f fields /\ (f = name \/ reaches look name f)
+     | GrOk _ => forall f, In f fields -> f <> name /\ ~ reaches look name f
+     | _ => True
+     end) /\
+  (forall look limit fuel name spreads, gd_frag_wf look ->
+     match gd_frag_check_with limit fuel look name spreads with
+     | GrCycle _ => exists f, In f spreads /\ (f = name \/ reaches (flook look) name f)
+     | GrOk _ => forall f, In f spreads -> f <> name /\ ~ reaches (flook look) name f
+     | _ => True
+     end) /\
+  (forall find_dir find_type limit fuel name items,
+     (forall t n b body, find_type t = Some (n, b, body) -> n = t) ->
+     match gd_dir_check_with limit fuel find_dir find_type name items with
+     | GrCycle _ => exists x, In x items /\ (x = GiDir name \/ dreaches find_dir find_type name x)
+     | GrOk _ => forall x, In x items -> x <> GiDir name /\ ~ dreaches find_dir find_type name x
+     | _ => True
+     end).
+Proof. split; [exact input_check_exact|split; [exact frag_check_exact|exact dir_check_exact]]. Qed.
+Check C21_cycle_verdict_exact :
+  (forall look limit fuel name fields,
+     match gd_input_check_with limit fuel look name fields with
+     | GrCycle _ => exists f, In f fields /\ (f = name \/ reaches look name f)
+     | GrOk _ => forall f, In f fields -> f <> name /\ ~ reaches look name f
+     | _ => True
+     end) /\
+  (forall look limit fuel name spreads, gd_frag_wf look ->
+     match gd_frag_check_with limit fuel look name spreads with
+     | GrCycle _ => exists f, In f spreads /\ (f = name \/ reaches (flook look) name f)
+     | GrOk _ => forall f, In f spreads -> f <> name /\ ~ reaches (flook look) name f
+     | _ => True
+     end) /\
+  (forall find_dir find_type limit fuel name items,
+     (forall t n b body, find_type t = Some (n, b, body) -> n = t) ->
+     match gd_dir_check_with limit fuel find_dir find_type name items with
+     | GrCycle _ => exists x, In x items /\ (x = GiDir name \/ dreaches find_dir find_type name x)
+     | GrOk _ => forall x, In x items -> x <> GiDir name /\ ~ dreaches find_dir find_type name x
+     | _ => True
+     end).
+Print Assumptions C21_cycle_verdict_exact.
+
+(* ---- deep => limit error, for every limit: an unbounded chain of input objects *)
+Theorem C21_deep_chain_limit : forall limit fuel, (fuel >= gd_fuel_of limit)%nat ->
+  gd_input_check_with limit fuel dc_chain (dc_name 0) [dc_name 1] = GrLimit.
+Proof. exact deep_chain_limit. Qed.
+Check C21_deep_chain_limit : forall limit fuel, (fuel >= gd_fuel_of limit)%nat ->
+  gd_input_check_with limit fuel dc_chain (dc_name 0) [dc_name 1] = GrLimit.
+Print Assumptions C21_deep_chain_limit.
+
 (* ---- push is never called with a name already on the stack; every push is popped *)
 
 Theorem C21_recursion_stack_safe :
@@ -154,11 +211,19 @@ Print Assumptions C21_recursion_stack_safe.
    every schema without a built-in input object *)
 Theorem C21_hypotheses_hold :
   (forall fr, gd_frag_wf (gd_table_look (gd_spread_table fr))) /\
-  (forall s, gd_no_builtin_input s -> gd_builtin_dir_only (gd_schema_find_type s)).
-Proof. split; [exact gd_spread_table_wf|exact gd_schema_builtin_dir_only]. Qed.
+  (forall s, gd_no_builtin_input s -> gd_builtin_dir_only (gd_schema_find_type s)) /\
+  (forall s t n b body, gd_schema_find_type s t = Some (n, b, body) -> n = t).
+Proof.
+  split; [exact gd_spread_table_wf|split; [exact gd_schema_builtin_dir_only|]].
+  intros s t n b body. unfold gd_schema_find_type, sch_get_type.
+  generalize (sch_types s). intros ts. induction ts as [|x ts IH]; cbn [sch_find_type]; [discriminate|].
+  destruct (streq t (et_name x)) eqn:E; [|exact IH].
+  intros [= <- _ _]. apply streq_eq in E. congruence.
+Qed.
 Check C21_hypotheses_hold :
   (forall fr, gd_frag_wf (gd_table_look (gd_spread_table fr))) /\
-  (forall s, gd_no_builtin_input s -> gd_builtin_dir_only (gd_schema_find_type s)).
+  (forall s, gd_no_builtin_input s -> gd_builtin_dir_only (gd_schema_find_type s)) /\
+  (forall s t n b body, gd_schema_find_type s t = Some (n, b, body) -> n = t).
 Print Assumptions C21_hypotheses_hold.
 
 (* ---- DiagnosticList::sort: sorted by Option (file id, offset) with None first, a permutation, stable;
@@ -210,6 +275,29 @@ Check C21_defer_limit_swallowed_refuted : exists d : document,
   let o := gd_doc_walk_obs d in
   gwo_defer_truncated o = true /\ gwo_defer_root o = 0%N /\ gwo_recursion o = 0%N /\ gwo_used_limit o = 0%N.
 Print Assumptions C21_defer_limit_swallowed_refuted.
+
+(* ---- the unguarded recursion: validate_selection_set and its callees nest as deep as (fragments on a
+   spread path) x (nesting of each definition): 50 fragments of 100 nested fields each (every definition far
+   below the parser's limit, every fragment passing the cycle check) give 5052 nested activations, 99
+   fragments 10001 (finding selection_set_recursion_unguarded: the real crate overflows a 1 MiB stack on the
+   first document and an 8 MiB stack at 99 x 400) *)
+Definition ex_deep_doc (nf k : nat) : document :=
+  DOperation OpQuery None [] [] [SSpread (ex_G 0) []]
+  :: map (fun i => DFragment (ex_G i) [81] []
+                             (ex_nest true k (if Nat.ltb (S i) nf then [SSpread (ex_G (S i)) []] else ex_leaf)))
+         (seq 0 nf).
+
+Theorem C21_selection_depth_unguarded_refuted : exists (d : document) (depth : nat),
+  gd_doc_vss_depth d = Some depth /\ (depth > 5000)%nat /\
+  Forall (fun v => snd v = GvOk) (gd_doc_frag_verdicts d).
+Proof.
+  exists (ex_deep_doc 50 100), 5052%nat. split; [vm_compute; reflexivity|split; [apply PeanoNat.Nat.ltb_lt; vm_compute; reflexivity|]].
+  vm_compute. repeat constructor.
+Qed.
+Check C21_selection_depth_unguarded_refuted : exists (d : document) (depth : nat),
+  gd_doc_vss_depth d = Some depth /\ (depth > 5000)%nat /\
+  Forall (fun v => snd v = GvOk) (gd_doc_frag_verdicts d).
+Print Assumptions C21_selection_depth_unguarded_refuted.
 
 (* ---- non-vacuity: concrete graphs at limit and limit + 1 for every guard *)
 Example C21_nonvacuous :
